@@ -199,10 +199,15 @@ class Interp:
             if bv is None and self.is_null_file_test(s.child('cond')):
                 bv = False  # the output file was opened (the failure exit writes nothing and returns an error)
             if bv is None:
-                key = cond_key(s.child('cond'))
+                c0 = _strip_casts(s.child('cond'))
+                neg = False
+                while c0.k == 'UnaryOperator' and c0.op == '!':
+                    neg = not neg
+                    c0 = _strip_casts(c0.child('sub'))
+                key = cond_key(c0)
                 if key not in self.env:
                     raise NeedAtom(key)
-                bv = self.env[key]
+                bv = self.env[key] != neg
             br = s.child('then') if bv else s.child('else')
             if br is None:
                 return ('eps',), True
